@@ -90,6 +90,17 @@ Theorem C06_refuted_mask_uint8 :
 Proof. exact refuted_mask_uint8. Qed.
 Print Assumptions C06_refuted_mask_uint8.
 
+(* the mask condition of head_ok is exact for uint8::mask_one / mask_not_one: whenever it fails, the one-byte input
+   consisting of the eol character is matched and bumped in this line (1 : +0 : +1) while track gives (1 : +1 : 1) *)
+Theorem C06_mask_exact e found m cs p :
+  test_one_set found cs (Z.of_N (eol_ch e)) = false ->
+  test_one_set found cs (Z.of_N (N.land (eol_ch e) m)) = true ->
+  eval_atom e (HOne found (PkMaskUint8 m) cs) (mkcur [eol_ch e] p)
+    = Some (Res Ok (mkcur [] (mkpos (pbyte p + 1) (pline p) (pcol p + 1))) []) /\
+  track (eol_ch e) p [eol_ch e] = mkpos (pbyte p + 1) (pline p + 1) 1.
+Proof. exact (mask_exact e found m cs p). Qed.
+Print Assumptions C06_mask_exact.
+
 (* (d) the input's own byte(): eager = initial byte + consumed, lazy = consumed *)
 Theorem C06_refuted_lazy_byte : exists input p0, eager_byte (mkcur input p0) <> lazy_byte input (mkcur input p0).
 Proof. exact byte_refuted. Qed.
